@@ -1,8 +1,12 @@
 use crate::util::Ctx;
+pub mod c15;
+pub mod c16;
 pub mod c20;
 
 pub fn dispatch(ctx: &Ctx) -> i32 {
     match ctx.id.as_str() {
+        "C15" => c15::run(ctx),
+        "C16" => c16::run(ctx),
         "C20" => c20::run(ctx),
         other => {
             crate::util::out(&format!("unknown check {}", other));
